@@ -724,6 +724,79 @@ def refcount_cases(ctx, lc):
                                       {"stage": "refcount", "cfg": cfg_json(cfg), "ops": [op_json(x) for x in ops]})
 
 
+def session_history_cases(ctx, lc):
+    """one session across several connections (server SessionCache, session-ID resumption): a fatal end of ANY
+    connection that used the session - also of one that was itself resumed - must prevent the next resumption;
+    orderly closes keep it resumable"""
+    from harness import lab
+    from tlslite.sessioncache import SessionCache
+    from tlslite.messages import Alert
+    vers = [(3, 3), (3, 1)] if not ctx.thorough() else [(3, 3), (3, 2), (3, 1), (3, 0)]
+    histories = ["o", "oo", "t", "a", "s", "ot", "oa", "os", "oot", "ooa", "oto", "oao", "oso", "ooo"]
+    chain, key = lab.creds("rsa")
+    for ver in vers:
+        for hist in histories:
+            cache = SessionCache()
+            session = None
+            trace = []
+            ok_setup = True
+            for i, end in enumerate(hist + "?"):
+                cs, ss = lab.settings(minv=ver, maxv=ver), lab.settings(minv=ver, maxv=ver)
+                L = lab.Lab()
+                kw = {"session": session} if session is not None else {}
+                L.start_client(lambda c: c.handshakeClientCert(settings=cs, async_=True, **kw))
+                L.start_server(lambda c: c.handshakeServerAsync(certChain=chain, privateKey=key, settings=ss, sessionCache=cache))
+                L.run()
+                if L.client.state != "done" or L.server.state != "done":
+                    ok_setup = False
+                    break
+                c, sv = L.client.conn, L.server.conn
+                trace.append("resumed=%d/%d" % (c.resumed, sv.resumed))
+                if session is None:
+                    session = c.session
+                if end == "?":
+                    break
+                if end == "o":
+                    L.op("client", c.closeAsync(), pump_other=False)
+                    r = L.read("server")
+                    trace.append("orderly:%s" % r[0])
+                elif end == "t":
+                    L.link.closed["c2s"] = True
+                    L.link.activity += 1
+                    r = L.read("server")
+                    trace.append("truncated:%s" % (lab.exc_class(r[1]) if r[0] == "error" else r[0]))
+                elif end == "a":
+                    L.op("client", c._sendMsg(Alert().create(40, 2)), pump_other=False)
+                    r = L.read("server")
+                    trace.append("alert-to-server:%s" % (lab.exc_class(r[1]) if r[0] == "error" else r[0]))
+                elif end == "s":
+                    L.op("server", sv._sendMsg(Alert().create(40, 2)), pump_other=False)
+                    r = L.read("client")
+                    trace.append("alert-to-client:%s" % (lab.exc_class(r[1]) if r[0] == "error" else r[0]))
+            case = {"stage": "session-history", "ver": list(ver), "history": hist, "trace": trace}
+            ctx.case(key=("session-history", ver, hist), sample=case if hist == "ot" else None)
+            ctx.count("session-history:" + ("fatal" if any(x != "o" for x in hist) else "orderly"))
+            if not ok_setup:
+                ctx.count("session-history-setup-failed")
+                continue
+            resumed = bool(c.resumed and sv.resumed)
+            any_resumed = bool(c.resumed or sv.resumed)
+            fatal = any(x != "o" for x in hist)
+            if fatal and any_resumed:
+                ctx.violation("c17:session-resumed-after-fatal-failure",
+                              "TLS %s, connection history %r (o orderly close, t truncation, a/s fatal alert to server/client): the next "
+                              "handshake RESUMED the session although a connection using it ended with a fatal failure; %s"
+                              % (ver, hist, " ".join(trace)), case)
+            if not fatal and not resumed:
+                ctx.violation("c17:session-not-resumable-after-orderly-close",
+                              "TLS %s, history %r of orderly closes: the next handshake did not resume; %s" % (ver, hist, " ".join(trace)), case)
+            if lc is not None:
+                m = lc.ask("sessionafter " + "".join("o" if x == "o" else "f" for x in hist))
+                ctx.compared()
+                if m != "resumes=%d" % resumed:
+                    ctx.disagree("sessionAfter", case, m, "resumes=%d" % resumed)
+
+
 def keyed_cases(ctx, lc):
     """the deviations found earlier (repaired in /repo), kept as directed oracle cases"""
     base = dict(ver=(3, 4), client_cert=True, tickets=0)
@@ -776,6 +849,7 @@ def run(ctx):
     keyed_cases(ctx, lc)
     close_reply_cases(ctx, lc)
     refcount_cases(ctx, lc)
+    session_history_cases(ctx, lc)
     handshake_faults(ctx, lc)
     handshake_alerts(ctx, lc)
     cfgs = list(data_cfgs(rng, ctx.pick(3, 8)))
@@ -787,21 +861,27 @@ def run(ctx):
     pairs = [(cfg, ops) for cfg in cfgs for ops in placement_histories(ctx)]
     ctx.extra["placement_histories_total"] = len(pairs)
     if not ctx.thorough():
-        rng.shuffle(pairs)          # quick tier: a seeded sample of the full product
-    t_end = ctx.elapsed() + ctx.pick(70.0, 450.0)
+        # quick tier: a seeded sample of FIXED size of the full product (load independent: never cut by time)
+        rng.shuffle(pairs)
+        pairs = pairs[:900]
     done = 0
     for cfg, ops in pairs:
-        if ctx.elapsed() > t_end:
-            break
         run_data(ctx, lc, cfg, ops, "placement")
         done += 1
     ctx.extra["placement_histories_run"] = done
+    # only this random bulk may be cut by the time budget
     t_end = ctx.elapsed() + ctx.pick(25.0, 150.0)
+    cut = False
     for cfg in data_cfgs(rng, ctx.pick(40, 400)):
         for ops in fault_histories(rng, 6):
             if ctx.elapsed() > t_end:
+                cut = True
                 break
             run_data(ctx, lc, cfg, ops, "fault")
+        if cut:
+            break
+    if cut:
+        ctx.count("cut-by-budget:random-fault-histories")
 
 
 def replay(ctx, rep):
@@ -828,6 +908,11 @@ def replay(ctx, rep):
                     return dx["exc"] != "remote_alert:%d" % inp["alert"] or not dx["closed"]
         print("unknown flavour", inp.get("flavour"))
         return True
+    if st == "session-history":
+        session_history_cases(ctx, lc)
+        for v in ctx.violations:
+            print("oracle:", v["key"], v["what"])
+        return bool(ctx.violations or ctx.disagreements)
     if st == "handshake-alert":
         handshake_alerts(ctx, lc)
         for v in ctx.violations:
